@@ -57,4 +57,21 @@ def verdict (c : TCfg) (a : Arrival) (fuel : Nat) : Verdict :=
   | some k => .timedOut k
   | none => if a.tb.isSome then .served else .waiting
 
+/-! ### one scan over all the connections of a worker (`for (const auto& peerPair : peers)` in checkIdlePeers) -/
+
+/-- a connection as the scan sees it: an identity, the parser's phase and the time since its clock was (re)started -/
+structure Peer where
+  id : Nat
+  phase : Phase
+  elapsed : Nat
+  deriving DecidableEq, Repr
+
+/-- the connections the scan answers 408 and drops: every one is looked at, each is judged by its own phase and clock -/
+def scan (c : TCfg) (peers : List Peer) : List Peer := peers.filter fun p => expired c p.phase p.elapsed
+
+/-- a scan that stops at the first connection still within its limits (a seeded change: `break` where `continue` was meant) -/
+def scanBreak (c : TCfg) : List Peer → List Peer
+  | [] => []
+  | p :: rest => if expired c p.phase p.elapsed then p :: scanBreak c rest else []
+
 end Pistache.Timeouts
